@@ -74,6 +74,7 @@ func tkey(t types.Type) string {
 	if t == nil {
 		return ""
 	}
+	t = types.Unalias(t)
 	k := types.TypeString(t, nil)
 	if _, ok := typesOut[k]; ok {
 		return k
